@@ -85,7 +85,14 @@ theorem prov_step (hist : List Call) (c : Cache) (q : Call) (h : Prov hist c) :
     · rcases hp with hp | hp
       · exact Or.inl hp
       · exact Or.inr (Or.inl hp)
-    · split at hp <;>
+    · split at hp
+      · rename_i t hf
+        rcases hp with hp | hp
+        · simp at hp
+          rcases hp with hp | hp
+          · exact Or.inr (Or.inl (by rw [hp]; exact find_some_mem hf))
+          · exact Or.inl hp
+        · exact Or.inr (Or.inl hp)
       · rcases hp with hp | hp
         · simp at hp
           rcases hp with hp | hp
@@ -150,7 +157,8 @@ theorem lookup_keys (c : Cache) (s : Sig) (tag : Tag) :
     (lookup c s tag).1.cap = c.cap ∧ (lookup c s tag).1.iv = c.iv ∧ (lookup c s tag).1.exp = c.exp ∧
     (lookup c s tag).1.prev = c.prev ∧
     ((s ∈ keys c.cur ∧ (lookup c s tag).1.cur = c.cur) ∨
-     (s ∉ keys c.cur ∧ (lookup c s tag).1.cur = (s, tag) :: c.cur)) := by
+     (s ∉ keys c.cur ∧ ∃ τ, (lookup c s tag).1.cur = (s, τ) :: c.cur ∧
+        ((s, τ) ∈ c.prev ∨ (τ = tag ∧ s ∉ keys c.prev)))) := by
   unfold lookup
   split
   · rename_i t hf
@@ -158,7 +166,11 @@ theorem lookup_keys (c : Cache) (s : Sig) (tag : Tag) :
     simp [this]
   · rename_i hf
     have hn := find_none_iff.mp hf
-    split <;> simp [hn]
+    split
+    · rename_i t hp
+      exact ⟨rfl, rfl, rfl, rfl, Or.inr ⟨hn, t, rfl, Or.inl (find_some_mem hp)⟩⟩
+    · rename_i hp
+      exact ⟨rfl, rfl, rfl, rfl, Or.inr ⟨hn, tag, rfl, Or.inr ⟨rfl, find_none_iff.mp hp⟩⟩⟩
 
 theorem inv_after_record (c : Cache) (tag : Tag) (hc : c.cap = cap) (hi : c.iv = iv) :
     Inv cap iv e t0 [] (step c e tag t0).1 := by
@@ -167,7 +179,7 @@ theorem inv_after_record (c : Cache) (tag : Tag) (hc : c.cap = cap) (hi : c.iv =
   obtain ⟨k1, k2, k3, _, k5⟩ := lookup_keys (rot c t0) e tag
   unfold step Inv
   refine ⟨by rw [k1, h1.1, hc], by rw [k2, h1.2, hi], Or.inl ⟨?_, by rw [k3]; exact h2⟩⟩
-  rcases k5 with ⟨hin, hcur⟩ | ⟨_, hcur⟩
+  rcases k5 with ⟨hin, hcur⟩ | ⟨_, τ, hcur, _⟩
   · rw [hcur]; exact hin
   · rw [hcur]; simp [keys]
 
@@ -202,7 +214,7 @@ theorem lookup_inv (seen : List Sig) (c : Cache) (s : Sig) (tag : Tag) (h : Inv 
   unfold Inv
   rw [k1, k2, k3, k4]
   refine ⟨hc, hi, ?_⟩
-  rcases k5 with ⟨_, hcur⟩ | ⟨hnot, hcur⟩
+  rcases k5 with ⟨_, hcur⟩ | ⟨hnot, τ, hcur, _⟩
   · rw [hcur]
     rcases h with h | ⟨he, hexp, hnd, hsub⟩
     · exact Or.inl h
@@ -281,6 +293,152 @@ theorem no_miss_stored (c : Cache) (hc : c.cap = cap) (hi : c.iv = iv) (tag0 : T
     · exact h1)
   obtain ⟨t, hmem, hres⟩ := lookup_found (rot c' t1) e tag1 (inv_present cap iv e t0 seen' _ hrot)
   exact ⟨t, rot_sub c' t1 _ hmem, hres⟩
+
+/-! ### the owner's tag: every stored pair of `e` carries the tag of its first sighting -/
+
+def Own (tag0 : Tag) (c : Cache) : Prop := ∀ t, ((e, t) ∈ c.cur ∨ (e, t) ∈ c.prev) → t = tag0
+
+theorem own_rot (tag0 : Tag) (c : Cache) (now : Nat) (h : Own e tag0 c) : Own e tag0 (rot c now) :=
+  fun t ht => h t (rot_sub c now _ ht)
+
+theorem mem_keys_of_mem {m : List (Sig × Tag)} {s : Sig} {t : Tag} (h : (s, t) ∈ m) : s ∈ keys m :=
+  List.mem_map.mpr ⟨(s, t), h, rfl⟩
+
+/-- the lookup/insert part keeps the owner's tag, provided `e` is stored when it is `e` that is presented -/
+theorem own_lookup (tag0 : Tag) (c : Cache) (s : Sig) (tag : Tag) (h : Own e tag0 c)
+    (hp : s ≠ e ∨ e ∈ keys c.cur ∨ e ∈ keys c.prev) : Own e tag0 (lookup c s tag).1 := by
+  obtain ⟨_, _, _, k4, k5⟩ := lookup_keys c s tag
+  intro t ht
+  rw [k4] at ht
+  rcases k5 with ⟨_, hcur⟩ | ⟨hnot, τ, hcur, hτ⟩
+  · rw [hcur] at ht; exact h t ht
+  · rw [hcur] at ht
+    rcases ht with ht | ht
+    · rcases List.mem_cons.mp ht with heq | ht'
+      · have hs : e = s := (Prod.mk.inj heq).1
+        have hτt : t = τ := (Prod.mk.inj heq).2
+        subst hs
+        rcases hτ with hprev | ⟨_, hnp⟩
+        · rw [hτt]; exact h τ (Or.inr hprev)
+        · rcases hp with hp | hp | hp
+          · exact absurd rfl hp
+          · exact absurd hp hnot
+          · exact absurd hp hnp
+      · exact h t (Or.inl ht')
+    · exact h t (Or.inr ht)
+
+/-- recording a fresh signature makes the presenter its owner -/
+theorem own_after_record (c : Cache) (tag0 : Tag) (hf : Fresh c e) : Own e tag0 (step c e tag0 t0).1 := by
+  have hn1 : e ∉ keys (rot c t0).cur := by
+    intro hm
+    obtain ⟨p, hp, hpe⟩ := List.mem_map.mp hm
+    have hp' : (e, p.2) ∈ (rot c t0).cur := by rw [← hpe]; exact hp
+    rcases rot_sub c t0 _ (Or.inl hp') with h1 | h1
+    · exact find_none_iff.mp hf.1 (mem_keys_of_mem h1)
+    · exact find_none_iff.mp hf.2 (mem_keys_of_mem h1)
+  have hn2 : e ∉ keys (rot c t0).prev := by
+    intro hm
+    obtain ⟨p, hp, hpe⟩ := List.mem_map.mp hm
+    have hp' : (e, p.2) ∈ (rot c t0).prev := by rw [← hpe]; exact hp
+    rcases rot_sub c t0 _ (Or.inr hp') with h1 | h1
+    · exact find_none_iff.mp hf.1 (mem_keys_of_mem h1)
+    · exact find_none_iff.mp hf.2 (mem_keys_of_mem h1)
+  obtain ⟨_, _, _, k4, k5⟩ := lookup_keys (rot c t0) e tag0
+  unfold step
+  intro t ht
+  rw [k4] at ht
+  rcases k5 with ⟨hin, _⟩ | ⟨_, τ, hcur, hτ⟩
+  · exact absurd hin hn1
+  · rw [hcur] at ht
+    rcases ht with ht | ht
+    · rcases List.mem_cons.mp ht with heq | ht'
+      · have hτt : t = τ := (Prod.mk.inj heq).2
+        rcases hτ with hprev | ⟨hτ0, _⟩
+        · exact absurd (mem_keys_of_mem hprev) hn2
+        · rw [hτt, hτ0]
+      · exact absurd (mem_keys_of_mem ht') hn1
+    · exact absurd (mem_keys_of_mem ht) hn2
+
+/-- invariant and owner's tag along the in-between calls -/
+theorem inv_own_run (tag0 : Tag) (mid : List Call) (seen : List Sig) (c : Cache)
+    (hinv : Inv cap iv e t0 seen c) (hown : Own e tag0 c)
+    (hm : ∀ p ∈ mid, t0 ≤ p.time ∧ p.time ≤ t0 + iv)
+    (hf : ∀ l : List Sig, l.Nodup → (∀ x ∈ l, (x ∈ seen ∨ x ∈ mid.map (·.sig)) ∧ x ≠ e) → l.length < cap) :
+    Own e tag0 (run c mid) := by
+  induction mid generalizing seen c with
+  | nil => simpa [run] using hown
+  | cons p rest ih =>
+    have hp := hm p (by simp)
+    simp only [run]
+    have hrot : Inv cap iv e t0 seen (rot c p.time) := by
+      apply rot_inv cap iv e t0 seen c p.time hinv hp.1 hp.2
+      intro l hl hx; apply hf l hl; intro x hxl; exact ⟨Or.inl (hx x hxl).1, (hx x hxl).2⟩
+    have hstep : Inv cap iv e t0 (p.sig :: seen) (step c p.sig p.tag p.time).1 := by
+      unfold step; exact lookup_inv cap iv e t0 seen _ p.sig p.tag hrot
+    have hown' : Own e tag0 (step c p.sig p.tag p.time).1 := by
+      unfold step
+      exact own_lookup e tag0 _ p.sig p.tag (own_rot e tag0 c p.time hown) (Or.inr (inv_present cap iv e t0 seen _ hrot))
+    exact ih (p.sig :: seen) _ hstep hown' (fun q hq => hm q (by simp [hq])) (by
+      intro l hl hx; apply hf l hl; intro x hxl
+      have := hx x hxl
+      refine ⟨?_, this.2⟩
+      rcases this.1 with h1 | h1
+      · rcases List.mem_cons.mp h1 with rfl | h2
+        · right; simp
+        · left; exact h2
+      · right; simp at h1 ⊢; right; exact h1)
+
+/-- No miss WITH the owner's tag: a signature that was fresh when `(e, tag0)` recorded it at `t0` is
+    answered, inside the bounds, by the tag rule against `tag0` — whoever presented it in between. -/
+theorem no_miss_owner (c : Cache) (hc : c.cap = cap) (hi : c.iv = iv) (hfresh : Fresh c e) (tag0 : Tag)
+    (mid : List Call) (tag1 : Tag) (t1 : Nat)
+    (hmid : ∀ p ∈ mid, t0 ≤ p.time ∧ p.time ≤ t0 + iv) (ht0 : t0 ≤ t1) (ht : t1 ≤ t0 + iv)
+    (hfew : ∀ l : List Sig, l.Nodup → (∀ x ∈ l, x ∈ mid.map (·.sig) ∧ x ≠ e) → l.length < cap) :
+    (step (run (step c e tag0 t0).1 mid) e tag1 t1).2 = tagConflict tag0 tag1 := by
+  obtain ⟨t, hmem, hres⟩ := no_miss_stored cap iv e t0 c hc hi tag0 mid tag1 t1 hmid ht0 ht hfew
+  have hown := inv_own_run cap iv e t0 tag0 mid [] _ (inv_after_record cap iv e t0 c tag0 hc hi)
+    (own_after_record e t0 c tag0 hfresh) hmid (by
+      intro l hl hx; apply hfew l hl; intro x hxl; have := hx x hxl; simp_all)
+  rw [hres, hown t hmem]
+
+/-- one link: answer by the owner's tag, and the invariant is re-established at the new instant -/
+theorem owner_link (tag0 : Tag) (c : Cache) (hinv : Inv cap iv e t0 [] c) (hown : Own e tag0 c)
+    (mid : List Call) (tag1 : Tag) (t1 : Nat)
+    (hmid : ∀ p ∈ mid, t0 ≤ p.time ∧ p.time ≤ t0 + iv) (ht0 : t0 ≤ t1) (ht : t1 ≤ t0 + iv)
+    (hfew : ∀ l : List Sig, l.Nodup → (∀ x ∈ l, x ∈ mid.map (·.sig) ∧ x ≠ e) → l.length < cap) :
+    (step (run c mid) e tag1 t1).2 = tagConflict tag0 tag1 ∧
+    Inv cap iv e t1 [] (step (run c mid) e tag1 t1).1 ∧ Own e tag0 (step (run c mid) e tag1 t1).1 := by
+  have hf' : ∀ l : List Sig, l.Nodup → (∀ x ∈ l, (x ∈ ([] : List Sig) ∨ x ∈ mid.map (·.sig)) ∧ x ≠ e) → l.length < cap := by
+    intro l hl hx; apply hfew l hl; intro x hxl; have := hx x hxl; simp_all
+  obtain ⟨seen', hinv', hsub⟩ := inv_run cap iv e t0 mid [] c hinv hmid hf'
+  have hown' := inv_own_run cap iv e t0 tag0 mid [] c hinv hown hmid hf'
+  have hrot := rot_inv cap iv e t0 seen' (run c mid) t1 hinv' ht0 ht (by
+    intro l hl hx; apply hfew l hl; intro x hxl
+    have := hx x hxl
+    refine ⟨?_, this.2⟩
+    rcases hsub x this.1 with h1 | h1
+    · simp at h1
+    · exact h1)
+  have hpres := inv_present cap iv e t0 seen' _ hrot
+  obtain ⟨t, hmem, hres⟩ := lookup_found (rot (run c mid) t1) e tag1 hpres
+  have hownrot := own_rot e tag0 (run c mid) t1 hown'
+  refine ⟨?_, ?_, ?_⟩
+  · unfold step; rw [hres, hownrot t hmem]
+  · exact inv_after_record cap iv e t1 (run c mid) tag1 hinv'.1 hinv'.2.1
+  · unfold step; exact own_lookup e tag0 _ e tag1 hownrot (Or.inr hpres)
+
+/-- the whole chain -/
+theorem owner_chain (tag0 : Tag) (rounds : List Round) (c : Cache) (t : Nat)
+    (hinv : Inv cap iv e t [] c) (hown : Own e tag0 c) (hok : ChainOK cap iv e t rounds) :
+    chainAnswers c e rounds = rounds.map (fun r => tagConflict tag0 r.tag) := by
+  induction rounds generalizing c t with
+  | nil => simp [chainAnswers]
+  | cons r rest ih =>
+    simp only [ChainOK] at hok
+    obtain ⟨h1, h2, h3, h4, h5⟩ := hok
+    obtain ⟨a, b, d⟩ := owner_link cap iv e t tag0 c hinv hown r.mid r.tag r.time h1 h2 h3 h4
+    simp only [chainAnswers, List.map_cons]
+    rw [a, ih _ r.time b d h5]
 
 end NoMiss
 
@@ -394,7 +552,7 @@ theorem step_nodup (c : Cache) (s : Sig) (tag : Tag) (now : Nat) (h : (keys c.cu
   unfold step
   rw [k4]
   refine ⟨?_, hr.2⟩
-  rcases k5 with ⟨_, hcur⟩ | ⟨hnot, hcur⟩
+  rcases k5 with ⟨_, hcur⟩ | ⟨hnot, τ, hcur, _⟩
   · rw [hcur]; exact hr.1
   · rw [hcur]; simp only [keys, List.map_cons]; exact List.nodup_cons.mpr ⟨hnot, hr.1⟩
 
@@ -415,6 +573,6 @@ theorem step_size (c : Cache) (s : Sig) (tag : Tag) (now : Nat) (hcap : 0 < c.ca
   have hr : (rot c now).cur.length < c.cap ∨ (rot c now).cur = [] := by
     unfold rot; simp only; split <;> split <;> simp_all <;> omega
   unfold step
-  rcases k5 with ⟨_, hcur⟩ | ⟨_, hcur⟩ <;> rw [hcur] <;> rcases hr with hr | hr <;> simp_all <;> omega
+  rcases k5 with ⟨_, hcur⟩ | ⟨_, τ, hcur, _⟩ <;> rw [hcur] <;> rcases hr with hr | hr <;> simp_all <;> omega
 
 end Mieru.Proofs.Replay
